@@ -25,7 +25,12 @@ Inductive tnode :=
 (* C06: a layout's @reserve(name) together with what the page inserts for it - the body of a block
    insert, or the expression of the short form, or nothing (rid is the parser's label of the
    statement, without meaning for the render) *)
-| NReserve (name : bytes) (rid : nat) (blk : option (list tnode)) (arg : option sexpr).
+| NReserve (name : bytes) (rid : nat) (blk : option (list tnode)) (arg : option sexpr)
+(* C07: a use of a component - its arguments as written at the place of use and the nodes of the
+   component file (with this use's slot bodies in its placeholders; cid is the parser's label) -
+   and a slot placeholder with the body the caller passed, if any *)
+| NComponent (name : bytes) (cid : nat) (args : option (list (bytes * sexpr))) (body : list tnode)
+| NSlot (name : bytes) (body : option (list tnode)).
 
 Inductive signal := SigNormal | SigBreak | SigContinue.
 
@@ -66,6 +71,19 @@ Section TemplateSem.
 Variable call_spec : value -> bytes -> list value -> sres.
 
 Definition ev (sc : scopes) (e : sexpr) : sres := sem call_spec (S (size e)) (flat sc) e.
+
+(* the arguments of a component use, in key order: each is evaluated at the place of use (sc) and
+   bound in the component's own scope chain (ne); None = unspecified value, Some None = error *)
+Fixpoint bind_spec (sc : scopes) (ps : list (bytes * sexpr)) (ne : scopes) : option (option scopes) :=
+  match ps with
+  | [] => Some (Some ne)
+  | (k, e) :: ps' =>
+    match ev sc e with
+    | SVal v => match assign ne k v with Some ne' => bind_spec sc ps' ne' | None => Some None end
+    | SErr => Some None
+    | SUnspec => None
+    end
+  end.
 
 Fixpoint run_nodes (fuel : nat) (sc : scopes) (ns : list tnode) {struct fuel} : tres :=
   match fuel with
@@ -201,6 +219,27 @@ with run_node (fuel : nat) (sc : scopes) (n : tnode) {struct fuel} : tres :=
       | SUnspec => TUnprintable
       end
     | NReserve _ _ None None => TOk [] SigNormal sc
+    (* the component file rendered with every argument bound, in a fresh scope on top of the
+       scope of the place of use (the surrounding variables stay visible); the caller's scopes are
+       what they were *)
+    | NComponent _ _ args body =>
+      match (match args with
+             | Some ps => bind_spec sc (asort ps) ([] :: sc)
+             | None => Some (Some ([] :: sc))
+             end) with
+      | None => TUnprintable
+      | Some None => TFail
+      | Some (Some sc1) =>
+        match run_nodes f sc1 body with
+        | TOk o SigNormal sc2 => TOk o SigNormal (tl sc2)
+        | TOk _ _ _ => TUnprintable     (* @break / @continue loose in a component file: nothing is claimed *)
+        | r => r
+        end
+      end
+    (* a placeholder shows the body the caller passed, rendered where the placeholder stands *)
+    | NSlot _ (Some b) =>
+      match run_nodes f sc b with TOk o _ sc1 => TOk o SigNormal sc1 | r => r end
+    | NSlot _ None => TOk [] SigNormal sc
     end
   end
 
@@ -314,6 +353,8 @@ Fixpoint print_nodes (fuel : nat) (ns : list tnode) {struct fuel} : bytes :=
       | NBreakIf e => bs "@breakIf(" ++ code e ++ bs ")"
       | NContinueIf e => bs "@continueIf(" ++ code e ++ bs ")"
       | NReserve n _ _ _ => bs "@reserve(" ++ [34] ++ n ++ [34] ++ bs ")"
+      | NComponent n _ _ _ => bs "@component(" ++ [34] ++ n ++ [34] ++ bs ")"
+      | NSlot n _ => bs "@slot(" ++ [34] ++ n ++ [34] ++ bs ")"
       end) ns)
   end.
 
